@@ -2,7 +2,10 @@
 
 use std::collections::HashMap;
 use std::sync::atomic::{AtomicU32, Ordering};
+#[cfg(not(feature = "verif"))]
 use std::sync::{Arc, Mutex};
+#[cfg(feature = "verif")]
+use crate::verif::sync::{Arc, Mutex};
 
 use bitcoin::block::Header;
 use bitcoin::secp256k1::SecretKey;
